@@ -4,6 +4,7 @@ From Coq Require Import ZArith List Bool Arith Lia ZifyBool ZifyNat.
 From Zix Require Import BTreeSpec BTreeModel.
 Import ListNotations.
 Ltac Zify.zify_post_hook ::= Z.div_mod_to_equations.
+Set Default Proof Using "All".
 
 
 
@@ -141,9 +142,6 @@ Section Base.
   Variable elt : Type.
   Variable rank : elt -> Z.
   Variable dflt : elt.
-  Variables L I : nat.
-  Hypothesis HI : I = L / 2.
-  Hypothesis HI3 : 3 <= I.
 
   Notation node := (node elt).
   Notation dnode := (@dnode elt).
@@ -300,118 +298,7 @@ Section Base.
     In x (pre vs cs i) -> In x (elements (Inode vs cs)).
   Proof. intros. rewrite (@elements_split vs cs i) by assumption. apply in_or_app. auto. Qed.
 
-  (* ---------------------------------------------------------------- structural invariants *)
-  Definition minL : nat := (L + 1) / 2 - 1.
-  Definition minI : nat := (I + 1) / 2 - 1.
-
-  (* a non-root page of height h, all of whose pages respect the occupancy bounds *)
-  Fixpoint wfn (h : nat) (n : node) : Prop :=
-    match h with
-    | O => False
-    | S h' =>
-      match n with
-      | BTreeModel.Leaf vs => h' = 0 /\ minL <= length vs <= L
-      | BTreeModel.Inode vs cs =>
-        h' <> 0 /\ length cs = S (length vs) /\ minI <= length vs <= I /\ Forall (wfn h') cs
-      end
-    end.
-
-  (* the same without the bounds on the page itself (its children are full non-root pages) *)
-  Definition kids_ok (h : nat) (n : node) : Prop :=
-    match h with
-    | O => False
-    | S h' =>
-      match n with
-      | BTreeModel.Leaf vs => h' = 0
-      | BTreeModel.Inode vs cs => h' <> 0 /\ length cs = S (length vs) /\ Forall (wfn h') cs
-      end
-    end.
-
-  Lemma min_max_vals : forall n : node, min_vals L I n <= max_vals L I n.
-  Proof. intros n. unfold min_vals. lia. Qed.
-
-  Lemma min_vals_leaf : forall vs : list elt, min_vals L I (Leaf vs) = minL.
-  Proof. reflexivity. Qed.
-  Lemma min_vals_inode : forall (vs : list elt) cs, min_vals L I (Inode vs cs) = minI.
-  Proof. reflexivity. Qed.
-  Lemma max_vals_leaf : forall vs : list elt, max_vals L I (Leaf vs) = L.
-  Proof. reflexivity. Qed.
-  Lemma max_vals_inode : forall (vs : list elt) cs, max_vals L I (Inode vs cs) = I.
-  Proof. reflexivity. Qed.
-
-  Lemma minI_ge1 : 1 <= minI.
-  Proof. unfold minI. lia. Qed.
-  Lemma L_ge6 : 6 <= L.
-  Proof. lia. Qed.
-  Lemma minL_ge1 : 2 <= minL.
-  Proof. unfold minL. lia. Qed.
-
-  Lemma wfn_iff : forall h n,
-    wfn h n <-> kids_ok h n /\ min_vals L I n <= n_vals n <= max_vals L I n.
-  Proof.
-    intros [|h] [vs|vs cs]; cbn; unfold n_vals, min_vals, max_vals, minL, minI; cbn; tauto.
-  Qed.
-
-  Lemma wfn_kids_ok : forall h n, wfn h n -> kids_ok h n.
-  Proof. intros h n H. apply wfn_iff in H. tauto. Qed.
-
-  Lemma wfn_height : forall h n, wfn h n -> height n = h.
-  Proof.
-    induction h as [|h IH]; intros [vs|vs cs]; cbn; try tauto.
-    - intros [-> _]. reflexivity.
-    - intros [Hh [Hl [_ Hf]]]. f_equal. destruct cs as [|c cs]; [cbn in Hl; lia|].
-      inversion Hf; subst. auto.
-  Qed.
-
-  Lemma kids_ok_height : forall h n, kids_ok h n -> height n = h.
-  Proof.
-    intros [|h] [vs|vs cs]; cbn; try tauto.
-    - intros ->. reflexivity.
-    - intros [Hh [Hl Hf]]. f_equal. destruct cs as [|c cs]; [cbn in Hl; lia|].
-      inversion Hf; subst. auto using wfn_height.
-  Qed.
-
-  Lemma wfn_child : forall h vs cs i, wfn (S h) (Inode vs cs) -> i <= length vs -> wfn h (nth i cs dnode).
-  Proof.
-    intros h vs cs i [_ [Hl [_ Hf]]] Hi. rewrite Forall_forall in Hf. apply Hf. apply nth_In. lia.
-  Qed.
-
-  Lemma kids_ok_child : forall h vs cs i, kids_ok (S h) (Inode vs cs) -> i <= length vs -> wfn h (nth i cs dnode).
-  Proof.
-    intros h vs cs i [_ [Hl Hf]] Hi. rewrite Forall_forall in Hf. apply Hf. apply nth_In. lia.
-  Qed.
-
-  Lemma wfn_leaf_height1 : forall h vs, wfn h (Leaf vs) -> h = 1.
-  Proof. intros [|h] vs; cbn; [tauto|]. intros [-> _]. reflexivity. Qed.
-
-  Lemma wfn_inode_height : forall h vs cs, wfn h (Inode vs cs) -> exists h', h = S (S h').
-  Proof. intros [|[|h]] vs cs; cbn; try tauto. eauto. Qed.
-
-  Lemma Forall_aset : forall (P : node -> Prop) cs i c, Forall P cs -> P c -> Forall P (aset cs i c).
-  Proof.
-    intros P cs i c H Hc. unfold aset. apply Forall_app. split.
-    - apply Forall_forall. intros x Hx. rewrite Forall_forall in H. apply H.
-      rewrite <- (firstn_skipn i cs). apply in_or_app. auto.
-    - constructor; auto. apply Forall_forall. intros x Hx. rewrite Forall_forall in H. apply H.
-      rewrite <- (firstn_skipn (S i) cs). apply in_or_app. auto.
-  Qed.
-
-  (* ---------------------------------------------------------------- the tree invariant *)
-  Definition root_ok (h : nat) (n : node) : Prop :=
-    kids_ok h n /\ n_vals n <= max_vals L I n /\ (is_leaf n = false -> 1 <= n_vals n).
-
-  Definition Inv (t : tree) : Prop :=
-    (exists h, root_ok h (root t)) /\ asc (elements (root t)) /\
-    size t = Z.of_nat (length (elements (root t))).
-
-  Lemma Inv_empty : Inv (@empty_tree elt).
-  Proof.
-    split; [|split]; cbn; auto.
-    exists 1. unfold root_ok, n_vals. cbn. repeat split; try lia.
-  Qed.
-
   (* ---------------------------------------------------------------- binary search *)
-  Definition page_sorted (vs : list elt) : Prop := asc vs.
 
   (* a search comparator whose answers are monotone along vs: Lt* Eq* Gt* *)
   Notation mono := (@monotone elt).
@@ -802,11 +689,6 @@ Section Base.
       end
     end.
 
-  Definition shape_ok (r : node) : Prop := exists h, root_ok h r.
-
-  Lemma Inv_shape : forall t, Inv t -> shape_ok (root t).
-  Proof. intros t [H _]. exact H. Qed.
-
   (* induction principle for the nested type *)
   Lemma node_ind' : forall P : node -> Prop,
     (forall vs, P (Leaf vs)) ->
@@ -818,3 +700,154 @@ Section Base.
     - apply HI0. induction cs as [|c cs IHcs]; constructor; [apply IH|apply IHcs].
   Qed.
 End Base.
+
+Global Arguments zipf {elt}.
+Global Arguments pre {elt}.
+Global Arguments post {elt}.
+
+Section Invariants.
+  Variable elt : Type.
+  Variable rank : elt -> Z.
+  Variable dflt : elt.
+  Variables L I : nat.
+  Hypothesis HI : I = L / 2.
+  Hypothesis HI3 : 3 <= I.
+
+  Notation node := (node elt).
+  Notation tree := (tree elt).
+  Notation dnode := (@dnode elt).
+  Notation asc := (@asc elt rank).
+
+  (* ---------------------------------------------------------------- structural invariants *)
+  Definition minL : nat := (L + 1) / 2 - 1.
+  Definition minI : nat := (I + 1) / 2 - 1.
+
+  (* a non-root page of height h, all of whose pages respect the occupancy bounds *)
+  Fixpoint wfn (h : nat) (n : node) : Prop :=
+    match h with
+    | O => False
+    | S h' =>
+      match n with
+      | BTreeModel.Leaf vs => h' = 0 /\ minL <= length vs <= L
+      | BTreeModel.Inode vs cs =>
+        h' <> 0 /\ length cs = S (length vs) /\ minI <= length vs <= I /\ Forall (wfn h') cs
+      end
+    end.
+
+  (* the same without the bounds on the page itself (its children are full non-root pages) *)
+  Definition kids_ok (h : nat) (n : node) : Prop :=
+    match h with
+    | O => False
+    | S h' =>
+      match n with
+      | BTreeModel.Leaf vs => h' = 0
+      | BTreeModel.Inode vs cs => h' <> 0 /\ length cs = S (length vs) /\ Forall (wfn h') cs
+      end
+    end.
+
+  Lemma min_max_vals : forall n : node, min_vals L I n <= max_vals L I n.
+  Proof. intros n. unfold min_vals. lia. Qed.
+
+  Lemma min_vals_leaf : forall vs : list elt, min_vals L I (Leaf vs) = minL.
+  Proof. reflexivity. Qed.
+  Lemma min_vals_inode : forall (vs : list elt) cs, min_vals L I (Inode vs cs) = minI.
+  Proof. reflexivity. Qed.
+  Lemma max_vals_leaf : forall vs : list elt, max_vals L I (Leaf vs) = L.
+  Proof. reflexivity. Qed.
+  Lemma max_vals_inode : forall (vs : list elt) cs, max_vals L I (Inode vs cs) = I.
+  Proof. reflexivity. Qed.
+
+  Lemma minI_ge1 : 1 <= minI.
+  Proof. unfold minI. lia. Qed.
+  Lemma L_ge6 : 6 <= L.
+  Proof. lia. Qed.
+  Lemma minL_ge1 : 2 <= minL.
+  Proof. unfold minL. lia. Qed.
+
+  Lemma wfn_iff : forall h n,
+    wfn h n <-> kids_ok h n /\ min_vals L I n <= n_vals n <= max_vals L I n.
+  Proof.
+    intros [|h] [vs|vs cs]; cbn; unfold n_vals, min_vals, max_vals, minL, minI; cbn; tauto.
+  Qed.
+
+  Lemma wfn_kids_ok : forall h n, wfn h n -> kids_ok h n.
+  Proof. intros h n H. apply wfn_iff in H. tauto. Qed.
+
+  Lemma wfn_height : forall h n, wfn h n -> height n = h.
+  Proof.
+    induction h as [|h IH]; intros [vs|vs cs]; cbn; try tauto.
+    - intros [-> _]. reflexivity.
+    - intros [Hh [Hl [_ Hf]]]. f_equal. destruct cs as [|c cs]; [cbn in Hl; lia|].
+      inversion Hf; subst. auto.
+  Qed.
+
+  Lemma kids_ok_height : forall h n, kids_ok h n -> height n = h.
+  Proof.
+    intros [|h] [vs|vs cs]; cbn; try tauto.
+    - intros ->. reflexivity.
+    - intros [Hh [Hl Hf]]. f_equal. destruct cs as [|c cs]; [cbn in Hl; lia|].
+      inversion Hf; subst. auto using wfn_height.
+  Qed.
+
+  Lemma wfn_child : forall h vs cs i, wfn (S h) (Inode vs cs) -> i <= length vs -> wfn h (nth i cs dnode).
+  Proof.
+    intros h vs cs i [_ [Hl [_ Hf]]] Hi. rewrite Forall_forall in Hf. apply Hf. apply nth_In. lia.
+  Qed.
+
+  Lemma kids_ok_child : forall h vs cs i, kids_ok (S h) (Inode vs cs) -> i <= length vs -> wfn h (nth i cs dnode).
+  Proof.
+    intros h vs cs i [_ [Hl Hf]] Hi. rewrite Forall_forall in Hf. apply Hf. apply nth_In. lia.
+  Qed.
+
+  Lemma wfn_leaf_height1 : forall h vs, wfn h (Leaf vs) -> h = 1.
+  Proof. intros [|h] vs; cbn; [tauto|]. intros [-> _]. reflexivity. Qed.
+
+  Lemma wfn_inode_height : forall h vs cs, wfn h (Inode vs cs) -> exists h', h = S (S h').
+  Proof. intros [|[|h]] vs cs; cbn; try tauto. eauto. Qed.
+
+  Lemma Forall_aset : forall (P : node -> Prop) cs i c, Forall P cs -> P c -> Forall P (aset cs i c).
+  Proof.
+    intros P cs i c H Hc. unfold aset. apply Forall_app. split.
+    - apply Forall_forall. intros x Hx. rewrite Forall_forall in H. apply H.
+      rewrite <- (firstn_skipn i cs). apply in_or_app. auto.
+    - constructor; auto. apply Forall_forall. intros x Hx. rewrite Forall_forall in H. apply H.
+      rewrite <- (firstn_skipn (S i) cs). apply in_or_app. auto.
+  Qed.
+
+  (* ---------------------------------------------------------------- the tree invariant *)
+  Definition root_ok (h : nat) (n : node) : Prop :=
+    kids_ok h n /\ n_vals n <= max_vals L I n /\ (is_leaf n = false -> 1 <= n_vals n).
+
+  Definition Inv (t : tree) : Prop :=
+    (exists h, root_ok h (root t)) /\ asc (elements (root t)) /\
+    size t = Z.of_nat (length (elements (root t))).
+
+  Lemma Inv_empty : Inv (@empty_tree elt).
+  Proof.
+    split; [|split]; cbn; auto.
+    exists 1. unfold root_ok, n_vals. cbn. repeat split; try lia.
+  Qed.
+
+  Definition shape_ok (r : node) : Prop := exists h, root_ok h r.
+
+  Lemma Inv_shape : forall t, Inv t -> shape_ok (root t).
+  Proof. intros t [H _]. exact H. Qed.
+
+End Invariants.
+
+
+Global Arguments wfn {elt}.
+Global Arguments kids_ok {elt}.
+Global Arguments root_ok {elt}.
+Global Arguments Inv {elt}.
+Global Arguments shape_ok {elt}.
+Global Arguments pairwise {elt}.
+Global Arguments Rasc {elt}.
+Global Arguments Rmono {elt}.
+Global Arguments valid {elt}.
+Global Arguments pos {elt}.
+Global Arguments iter_pos {elt}.
+Global Arguments iter_valid {elt}.
+Global Arguments walk {elt}.
+Global Arguments fv_post {elt}.
+Global Arguments fp_post {elt}.
